@@ -146,8 +146,9 @@ def main() -> int:
         if len(db) != len(dv):
             extra = [x for x in dv if x not in db] or [x for x in db if x not in dv]
             comp_keys = {"/components/schemas/" + k for k in bases[bi][1]["components"]["schemas"]}
-            reproc = any(x[1].startswith("\nUnable to process schema ") and x[1].strip()[len("Unable to process schema "):].rstrip(":") not in comp_keys for x in extra)
-            vd.violation(f"{k0}:diagnostics_differ" + (":model_copy_reprocessed" if reproc else ""), f"{bases[bi][0]}: {len(db)} vs {len(dv)} diagnostics: {extra[:1] or [x for x in db if x not in dv][:1]}", w)
+            reproc = any(x[1].startswith("\nUnable to process schema ") and (x[1].strip()[len("Unable to process schema "):].rstrip(":") not in comp_keys or "Attempted to generate duplicate models with name" in (x[2] or "")) for x in extra)
+            # one mechanism whatever rewrite put the single-reference wrapper there (wrap / unwrap / nullable allOf[ref] <-> oneOf[null, ref])
+            vd.violation("single_ref_wrapper:diagnostics_differ:model_copy_reprocessed" if reproc else f"{k0}:diagnostics_differ", f"{bases[bi][0]}: {len(db)} vs {len(dv)} diagnostics: {extra[:1] or [x for x in db if x not in dv][:1]}", w)
             continue  # tree differences of this pair are consequences of the differing diagnostics
         for dk, rel in tree_diff(b.get("tree") or {}, res.get("tree") or {})[:2]:
             vd.violation(f"{k0}:{artefact_kind(rel)}:{dk}", f"{bases[bi][0]}: {rel} differs under {kind}: {first_text_diff((b.get('tree') or {}).get(rel), (res.get('tree') or {}).get(rel))}", dict(w, file=rel))
